@@ -37,7 +37,7 @@ def gen_stv_cases(rng, n, rules_=("STV", "STV", "STV", "IRV", "SequentialRCV"), 
                 # integer weights only (the documented domain of the random transfer)
                 for b in jp["ballots"]:
                     w = Fraction(b["w"])
-                    b["w"] = str(max(1, math.ceil(w)))
+                    b["w"] = str(min(40, max(1, math.ceil(w))))
         cases.append({"rule": rule, "cfg": cfg, "profile": jp, "seed": rng.randrange(1 << 30), "family": fam})
     return cases
 
@@ -55,7 +55,9 @@ def run_stv_case(case):
     else:
         expect = [vk.states_val(nm, el.election_states), calls, 0]
     info["script"], info["calls"] = script, calls
-    return info, {"op": rules.OP_STV, "arg": arg, "expect": expect, "what": "election_states+random calls"}
+    inc = case["cfg"].get("transfer") == "random" and case["cfg"].get("simultaneous", True)
+    return info, {"op": rules.OP_STV, "arg": arg, "expect": expect, "what": "election_states+random calls",
+                  "inconclusive_ok": inc}
 
 
 def model_post(exp, mo):
